@@ -8,7 +8,7 @@ from __future__ import annotations
 import ast
 from typing import Any, Dict, List, Optional, Set, Tuple
 
-from ..cfg import cfg_of
+from ..cfg import cfg_of, CFG
 from ..fsmodel import StoreModel, Effect, show, flatten, mentions_sym, mentions_attr, unique_sources, strip_unique, contains, expand_attrs
 from ..model import Func, Class, AnchorError, unparse, stmt_key, f_cls
 from .common import Ctx, dominated, done_nodes, STORE_IFACE, raises_with_code, pass_outcomes
@@ -389,8 +389,14 @@ def path_confined(ctx: Ctx, v: LocalView, rule: str) -> int:
                     if ".." in consts and "." in consts:
                         rejects += [o for o in outs if o.ast is a]
                     elif ".." in consts:
-                        rejects += [o for o in outs if o.ast is a]
-                        flawed.append(f"{g.loc(a)}: `{unparse(a, 70)}` rejects '..' but not '.' ('/a/./b' and '/a/b' then share a location)") if False else None
+                        # '.' must be rejected too, unless '.' segments are dropped before the join (then '/a/./b' IS '/a/b')
+                        drops_dot = any(isinstance(c_, ast.Compare) and any(isinstance(k_, ast.Constant) and k_.value == "." for k_ in ast.walk(c_))
+                                        for comp in ast.walk(g.node) if isinstance(comp, (ast.ListComp, ast.GeneratorExp)) for gen in comp.generators for c_ in gen.ifs)
+                        if drops_dot:
+                            rejects += [o for o in outs if o.ast is a]
+                        else:
+                            flawed.append(f"{g.loc(a)}: `{unparse(a, 70)}` rejects '..' but not '.': the segment is joined as it is and the file system resolves it, "
+                                          "so '/a/./b' and '/a/b' (two different paths for dds) share one entry and the later commit overwrites the earlier one")
                     elif "commonpath" in txt or "is_relative_to" in txt or "relative_to" in txt:
                         rejects += [o for o in outs if o.ast is a]
                     elif "commonprefix" in txt:
@@ -605,6 +611,82 @@ def presence_from_fs(ctx: Ctx, v: LocalView, rule: str) -> int:
     return n
 
 
+def every_path_processed(ctx: Ctx, rule: str) -> int:
+    """In every Store implementation the loop of sync_paths over the given paths treats each path on its own: no `return` /
+    `break` inside the loop body (an early exit on one path - 'already up to date' - silently skips the paths that follow it)."""
+    rep = ctx.report
+    prog = ctx.prog
+    n = 0
+    for cq in sorted(prog.subclasses(STORE_IFACE)):
+        c = prog.classes[cq]
+        f = c.methods.get("sync_paths")
+        if f is None:
+            continue
+        pparams = [p for p in f.params if p not in ("self", "cls")]
+        for loop in [x for x in f.own_nodes() if isinstance(x, ast.For)]:
+            it_names = {y.id for y in ast.walk(loop.iter) if isinstance(y, ast.Name)}
+            if not (it_names & set(pparams)):
+                continue
+            n += 1
+            exits = []
+            stack = list(loop.body)
+            while stack:
+                x = stack.pop()
+                if isinstance(x, (ast.FunctionDef, ast.AsyncFunctionDef, ast.Lambda, ast.ClassDef)):
+                    continue
+                if isinstance(x, ast.Return):
+                    exits.append(x)
+                elif isinstance(x, ast.Break):
+                    exits.append(x)
+                if isinstance(x, (ast.For, ast.While)) and x is not loop:
+                    # a break inside an inner loop only leaves the inner loop; a return still leaves the method
+                    stack.extend(y for y in ast.walk(x) if isinstance(y, ast.Return))
+                    continue
+                stack.extend(ast.iter_child_nodes(x))
+            desc = f"{c.name}.sync_paths: every path of the batch is committed (no early exit from the loop)"
+            if exits:
+                rep.bad(rule, f.qname, desc, f.loc(exits[0]), [f"{f.loc(x)}: `{unparse(x, 30)}` inside the loop over `{unparse(loop.iter, 30)}`" for x in exits] + [
+                        "a batch {unchanged path, new path}: the loop stops at the first path that needs nothing, the paths after it are never committed (or keep their old key)"],
+                        stmt_key(exits[0]), what="sync_paths stops at the first path that is up to date")
+            else:
+                rep.ok(rule, f.qname, desc, f.loc(loop))
+    return n
+
+
+def dirs_created_unconditionally(ctx: Ctx, v: LocalView, rule: str) -> int:
+    """every directory the constructor creates is created whatever the state of the OTHER directories (its creation may only
+    depend on probes of that directory itself and on configuration flags)"""
+    rep = ctx.report
+    n = 0
+    v.m.expr_terms = {}
+    effs = v.m.effects_of("__init__")
+    for e in _dedupe([x for x in effs if x.kind == "MKDIR"]):
+        n += 1
+        foreign = []
+        for (test, pol) in e.conds:
+            tt = v.m.expr_terms.get(id(test))
+            probed = []
+            if tt is not None:
+                def collect(t: Any) -> None:
+                    if isinstance(t, tuple):
+                        if t and t[0] == "probe" and len(t) > 1:
+                            probed.append(t[1])
+                        for y in t[1:]:
+                            collect(y)
+                collect(tt)
+            for ptm in probed:
+                if ptm != e.term and flatten(ptm) != flatten(e.term):
+                    foreign.append(f"{e.where()}: creation of {show(e.term)} happens only when `{unparse(test, 50)}` is {pol}, a test on {show(ptm)}")
+        desc = f"the constructor creates {show(e.term)} whatever the state of the other directories"
+        if foreign:
+            rep.bad(rule, _site(v, "__init__"), desc, e.where(), foreign + [
+                "a store opened when the other directory already exists (created by another process a moment ago, or a pre-existing data directory with a fresh internal one) "
+                "never gets this directory, and its first store_blob fails with FileNotFoundError"], stmt_key(e.node), what="a store directory is only created as a side effect of creating another one")
+        else:
+            rep.ok(rule, _site(v, "__init__"), desc, e.where())
+    return n
+
+
 def readers_read_only(ctx: Ctx, v: LocalView, rule: str) -> int:
     """has_blob / fetch_blob / fetch_paths change nothing under a name that the store's protocol reads: a reader killed (or
     racing with another reader) in the middle of such a change leaves a committed entry torn, and no writer will repair it
@@ -676,6 +758,42 @@ def uri_join_keeps_names(ctx: Ctx, rule: str) -> int:
             rep.bad(rule, f.qname, desc, f.loc(st), wit, stmt_key(st), what="the URI join of the DBFS store cuts the leading '.' of hidden names: distinct paths alias")
         else:
             rep.ok(rule, f.qname, desc, f.loc(st))
+    # every segment is appended, whatever the spelling of the base (with or without a trailing separator)
+    jp = cls.methods.get("joinpath")
+    if jp is not None:
+        jcfg = cfg_of(jp)
+        for loop in [x for x in jp.own_nodes() if isinstance(x, ast.For)]:
+            n += 1
+            lv = {y.id for y in ast.walk(loop.target) if isinstance(y, ast.Name)}
+            # names derived from the loop variable inside the body (s = str(seg) ...)
+            derived = set(lv)
+            changed = True
+            while changed:
+                changed = False
+                for st in ast.walk(loop):
+                    if isinstance(st, (ast.Assign, ast.AnnAssign)) and getattr(st, "value", None) is not None:
+                        tg = st.targets[0] if isinstance(st, ast.Assign) else st.target
+                        if isinstance(tg, ast.Name) and tg.id not in derived and any(isinstance(y, ast.Name) and y.id in derived for y in ast.walk(st.value)):
+                            derived.add(tg.id)
+                            changed = True
+            rets = [r.value.args[0].id for r in jp.own_nodes() if isinstance(r, ast.Return) and isinstance(r.value, ast.Call) and r.value.args and isinstance(r.value.args[0], ast.Name)]
+            acc = rets[0] if rets else None
+            appends = [st for st in ast.walk(loop) if isinstance(st, ast.Assign) and isinstance(st.targets[0], ast.Name) and st.targets[0].id == acc
+                       and any(isinstance(y, ast.Name) and y.id in (derived - {acc}) for y in ast.walk(st.value))]
+            desc = "every segment is appended to the URI on every iteration"
+            heads = [x for x in jcfg.nodes if x.kind == "loop" and x.ast is loop]
+            tb = [x for x in jcfg.nodes if x.kind == "branch" and x.ast is loop and x.label == "T"]
+            if acc is None or not appends or not heads or not tb:
+                rep.unknown(rule, jp.qname, "accumulation of the joined URI not understood", jp.loc(loop))
+                continue
+            app_nodes = [x for a in appends for x in jcfg.nodes_of(a)]
+            pth = jcfg.find_path(tb, heads, avoid=app_nodes)
+            if pth is None:
+                rep.ok(rule, jp.qname, desc, jp.loc(appends[0]))
+            else:
+                rep.bad(rule, jp.qname, desc, jp.loc(loop), ["iteration that appends nothing:"] + CFG.show_path(pth, jp.module.relpath) + [
+                        "with a directory URI that ends with '/' every join returns the base unchanged: all redirect records (and blobs) share one location"],
+                        stmt_key(loop), what="the URI join drops the segment when the base ends with a separator")
     return n
 
 
@@ -885,6 +1003,15 @@ def _sim_setup(ctx: Ctx, v: LocalView):
 
     sim = cs.Sim(v.m, {})
     blob_terms = [t for t in v.visible if _key_suffix(t) == ""]
+    # the boolean expression has_blob returns (with the terms of its sub-expressions), for the reader's view
+    saved = getattr(v.m, "expr_terms", None)
+    v.m.expr_terms = {}
+    v.m.effects_of("has_blob")
+    sim.aux_terms = dict(v.m.expr_terms)
+    v.m.expr_terms = saved if saved is not None else {}
+    hb = v.func("has_blob")
+    rets = [r for r in hb.own_nodes() if isinstance(r, ast.Return) and r.value is not None]
+    sim.presence_expr = rets[0].value if len(rets) == 1 and isinstance(rets[0].value, (ast.BoolOp, ast.Call, ast.UnaryOp)) else None
     return cs, sim, blob_terms
 
 
